@@ -237,6 +237,13 @@ func (s *StateMachine) CheckSignature(tx *lib.Transaction, authorizedSigners [][
 	if e != nil {
 		return nil, ErrInvalidPublicKey(e)
 	}
+	// a multi-signature key authorizes an account only with an explicit threshold: threshold 0 (the proto default) states no
+	// signing policy, any subset of the members would 'meet' it
+	if _, isMulti := publicKey.(*crypto.BLS12381MultiPublicKey); isMulti {
+		if _, e = crypto.NewAccountAuthMultiBLSFromPublicKey(tx.Signature.PublicKey); e != nil {
+			return nil, ErrInvalidPublicKey(e)
+		}
+	}
 	// one signer, one encoding: the public key is not covered by the signature, so an equivalent representation of the same key
 	// (an ETH key with the 0x04 SEC1 prefix) would give the same signed content another transaction hash (replay protection)
 	if !bytes.Equal(publicKey.Bytes(), tx.Signature.PublicKey) {
